@@ -70,6 +70,7 @@ CHECKS = {
                  instr=["internal/common/fastrandom.go"]),
             unit("c20-race-gabi", "root", ["zz_verif_c20_test.go"], "^TestVerifC20RaceBodies$", race=True, env={"VERIF_RACE": "1"}),
             unit("c20-race-cprng", "internal/common", ["zz_verif_c20_test.go"], "^TestVerifC20RaceCPRNG$", race=True, env={"VERIF_RACE": "1"}),
+            unit("c20-race-helpers", "internal/common", ["zz_verif_c20_helpers_test.go"], "^TestVerifC20RaceHelpers$", race=True, env={"VERIF_RACE": "1"}),
             unit("c20-exppool", "keyproof", ["zz_verif_c20_test.go", "zz_verif_c17_test.go"], "^TestVerifC20ExpPool$", shards={"quick": 12, "thorough": 16},
                  instr=["keyproof/exp.go"], cpus=3),
             unit("c20-race-keyproof", "keyproof", ["zz_verif_c20_test.go", "zz_verif_c17_test.go"], "^TestVerifC20RaceKeyproof$", race=True, env={"VERIF_RACE": "1"}),
@@ -83,6 +84,7 @@ CHECKS = {
             unit("c16-stop", "gabikeys", ["zz_verif_c16_stop_test.go"], "^TestVerifC16Stop$", shards={"quick": 16, "thorough": 16},
                  instr=["safeprime/safeprime.go", "gabikeys/keys.go"]),
             unit("c16-gen", "gabikeys", ["zz_verif_c16_gen_test.go", "zz_verif_c16_stop_test.go"], "^TestVerifC16(Generator|Lengths)$", shards={"quick": 12, "thorough": 16}),
+            unit("c20-race-helpers", "internal/common", ["zz_verif_c20_helpers_test.go"], "^TestVerifC20RaceHelpers$", race=True, env={"VERIF_RACE": "1"}),
             unit("c16-filter", "gabikeys", ["zz_verif_c16_filter_test.go", "zz_verif_c16_gen_test.go", "zz_verif_c16_stop_test.go"], "^TestVerifC16Filter$", shards={"quick": 12, "thorough": 16}),
         ],
         "assumptions": [],
@@ -105,6 +107,7 @@ CHECKS = {
     "C07": {
         "level": "model_checking",
         "units": [
+            unit("c20-race-helpers", "internal/common", ["zz_verif_c20_helpers_test.go"], "^TestVerifC20RaceHelpers$", race=True, env={"VERIF_RACE": "1"}),
             unit("c07-seq", "root", ["zz_verif_c07_test.go", "zz_verif_c11_test.go", "zz_verif_c20_test.go"], "^TestVerifC07Sequential$", shards={"quick": 12, "thorough": 16}),
             unit("c07-conc-cprng", "root", ["zz_verif_c07_test.go", "zz_verif_c11_test.go", "zz_verif_c20_test.go"], "^TestVerifC07ConcurrentCPRNG$", shards={"quick": 8, "thorough": 16},
                  instr=["credential.go", "internal/common/fastrandom.go"], instr_fields={"credential.go": ["nonrevCache"]}),
